@@ -1,9 +1,9 @@
-import Slock.Proofs.QueueOps
+import Slock.Proofs.QueueMaint
 /-! C20: the per-operation lemmas lifted to arbitrary operation sequences (induction over the list), from
 any state satisfying the invariant and in particular from every constructor call. -/
 namespace Slock.Queue
 
-/-- the operations covered by the lifted theorem -/
+/-- the operations covered by the lifted theorem (everything except Resize, Restructuring, Shrink, iteration, holes) -/
 inductive Op
   | push (x : Elem)
   | pushLeft (x : Elem)
@@ -12,6 +12,9 @@ inductive Op
   | head
   | tail
   | len
+  | reset
+  | rellac
+  | freeQueue
   deriving Repr
 
 inductive Obs
@@ -29,6 +32,9 @@ def stepModel (q : Q) : Op → Res (Q × Obs)
   | .head => do let x ← head q; pure (q, .elem x)
   | .tail => do let x ← tail q; pure (q, .elem x)
   | .len => do let n ← len q; pure (q, .int n)
+  | .reset => do let q ← reset q; pure (q, .unit)
+  | .rellac => do let q ← rellac q; pure (q, .unit)
+  | .freeQueue => do let q ← freeQueue q; pure (q, .unit)
 
 def runModel : Q → List Op → Res (Q × List Obs)
   | q, [] => .ok (q, [])
@@ -47,6 +53,9 @@ def stepSpec : List Elem → Op → Obs → List Elem → Prop
   | l, .head, o, l' => o = .elem l.head?.join ∧ l' = l
   | l, .tail, o, l' => o = .elem l.getLast?.join ∧ l' = l
   | l, .len, o, l' => o = .int (l.length : Int) ∧ l' = l
+  | _, .reset, o, l' => o = .unit ∧ l' = []
+  | _, .rellac, o, l' => o = .unit ∧ l' = []
+  | l, .freeQueue, o, l' => o = .unit ∧ l' = l
 
 inductive SpecRun : List Elem → List Op → List Obs → List Elem → Prop
   | nil (l : List Elem) : SpecRun l [] [] l
@@ -73,6 +82,15 @@ theorem step_refines {q : Q} (h : QInv q) (op : Op) :
   | head => exact ⟨q, _, by simp [stepModel, head_refines h], h, rfl, rfl⟩
   | tail => exact ⟨q, _, by simp [stepModel, tail_refines h], h, rfl, rfl⟩
   | len => exact ⟨q, _, by simp [stepModel, len_refines h], h, rfl, rfl⟩
+  | reset =>
+    obtain ⟨q', e, hq, ha⟩ := reset_refines h
+    exact ⟨q', .unit, by simp [stepModel, e], hq, rfl, ha⟩
+  | rellac =>
+    obtain ⟨q', e, hq, ha⟩ := rellac_refines h
+    exact ⟨q', .unit, by simp [stepModel, e], hq, rfl, ha⟩
+  | freeQueue =>
+    obtain ⟨q', e, hq, ha⟩ := freeQueue_refines h
+    exact ⟨q', .unit, by simp [stepModel, e], hq, rfl, ha⟩
 
 /-- every operation sequence, of any length, from any state satisfying the invariant -/
 theorem run_refines {q : Q} (h : QInv q) (ops : List Op) :
